@@ -286,6 +286,14 @@ def load_known():
         return [e for e in json.load(fh).get("findings", []) if e.get("status") == "open"]
 
 
+TRIVIA = r"(?:\s|/\*[\s\S]*?\*/|--[^\n]*(?:\n|$)|#[^\n]*(?:\n|$)|//[^\n]*(?:\n|$))"
+
+
+def expand_trivia(rx):
+    """{T*} / {T+}: white space and comments between two tokens (signatures must match every rendering of an input)"""
+    return rx.replace("{T*}", TRIVIA + "*").replace("{T+}", TRIVIA + "+")
+
+
 def match_known(known, prop, case):
     """case: dict with at least 'input' (latin-1 text) and 'kind' (discrepancy kind)."""
     for e in known:
@@ -296,7 +304,7 @@ def match_known(known, prop, case):
             continue
         if "entry" in sig and sig["entry"] != case.get("entry"):
             continue
-        if "input_regex" in sig and not re.search(sig["input_regex"], case.get("input", ""), re.S):
+        if "input_regex" in sig and not re.search(expand_trivia(sig["input_regex"]), case.get("input", ""), re.S):
             continue
         if "detail_regex" in sig and not re.search(sig["detail_regex"], case.get("detail", ""), re.S):
             continue
